@@ -36,6 +36,19 @@ const EXTRA_PACKET_SIZE_IPV4: usize = 8 + 18 + 20 + 8;
 /// - 8 bit udp header
 const EXTRA_PACKET_SIZE_IPV6: usize = 8 + 18 + 40 + 8;
 
+/// Size of buffer that responses are serialized into. Responses that don't
+/// fit can't be sent.
+pub fn response_buffer_len(config: &Config) -> usize {
+    #[cfg(all(target_os = "linux", feature = "io-uring"))]
+    if config.network.use_io_uring {
+        return self::uring::RESPONSE_BUF_LEN;
+    }
+
+    let _ = config;
+
+    crate::common::BUFFER_SIZE
+}
+
 pub fn run_socket_worker(
     config: Config,
     shared_state: State,
